@@ -2,6 +2,7 @@ SPECIFICATION Spec
 CONSTANTS Consts = {"a", "b", "c"}
  MaxOps = 6
  Queries = FALSE
+ ChainMode = FALSE
  EmitAll = FALSE
 
 INVARIANT TestCorrect
